@@ -591,6 +591,146 @@ def small_scope(ctx, ux):
 
 
 # --------------------------------------------------------------------------------------
+# pairs that agree under every *projection* of the arrays an implementation might compare instead of
+# the arrays themselves: flattened values (reshapes), sorted values / multisets, sums, first and last
+# rows, lengths only
+# --------------------------------------------------------------------------------------
+
+
+def factorizations(n):
+    return [(a, n // a) for a in range(1, n + 1) if n % a == 0]
+
+
+def wellformed(rows):
+    for r in rows:
+        real = [v for v in r if v != INT_FILL]
+        k = len(real)
+        if k < 3 or list(r[:k]) != real or len(set(real)) != k:
+            return False
+    return True
+
+
+def reshaped(rows, a, b):
+    flat = [v for r in rows for v in r]
+    return [flat[i * b:(i + 1) * b] for i in range(a)]
+
+
+def reshape_pairs(rng, A, k=3):
+    """same nodes, same FLATTENED connectivity (fills included), another (n_face, n_max_face_nodes)"""
+    nf, w = len(A["conn"]), len(A["conn"][0])
+    fs = [(a, b) for a, b in factorizations(nf * w) if (a, b) != (nf, w)]
+    rng.shuffle(fs)
+    fs.sort(key=lambda ab: not wellformed(reshaped(A["conn"], *ab)))  # well-formed reshapes first
+    out = []
+    for a, b in fs[:k]:
+        B = json.loads(json.dumps(A))
+        B["conn"] = reshaped(A["conn"], a, b)
+        out.append(("reshape/" + ("well-formed" if wellformed(B["conn"]) else "any"), A, B))
+    return out
+
+
+def ring_family():
+    """n consecutively numbered nodes on a circle of latitude as n/k k-gons, k = 3, 4, 6, 8 …: identical
+    flattening `0 … n-1`; and a flattening with trailing fills cut into rows in several ways"""
+    fam = []
+    for n, ks in ((12, (3, 4, 6)), (24, (3, 4, 6, 8))):
+        lon = [bits(360.0 * i / n - 180.0 + 1.0) for i in range(n)]
+        lat = [bits(10.0)] * n
+        for k in ks:
+            fam.append((f"ring{n}", lon, lat, [list(range(i * k, (i + 1) * k)) for i in range(n // k)]))
+    n = 9
+    lon = [bits(40.0 * i - 170.0) for i in range(n)]
+    lat = [bits(-20.0 + i) for i in range(n)]
+    flat = list(range(n)) + [INT_FILL] * 3
+    for a, b in ((2, 6), (3, 4), (4, 3)):
+        fam.append(("ring9+fill", lon, lat, [flat[i * b:(i + 1) * b] for i in range(a)]))
+    return fam
+
+
+def reshape_scope(ctx, ux):
+    """all ordered pairs of the ring families (every pair has the same flattened arrays), numpy- and dask-backed"""
+    rng = ctx.rng
+    built = []
+    for name, lon, lat, conn in ring_family():
+        for f in (dict(via="topology"), dict(via="dataset", spec="UGRID")):
+            for ops in ([], [rand_chunk(rng, len(lon), len(conn))]):
+                d = desc(f["via"], lon, lat, conn, **{k: v for k, v in f.items() if k != "via"})
+                if ops:
+                    d["ops"] = ops
+                try:
+                    g = build(ux, d)
+                except Exception as e:  # noqa: BLE001
+                    ctx.hit("op-or-constructor-raised:reshape:" + type(e).__name__)
+                    continue
+                built.append((name, f["via"], bool(ops), d, g, observe(g)))
+    for (na, va, ca, da, a, oa), (nb, vb, cb, db, b, ob) in itertools.product(built, built):
+        if a is b or na != nb or va != vb:
+            continue
+        judge_objs(ctx, "reshape-scope/" + na + ("/chunked" if ca or cb else ""), a, oa, da, b, ob, db)
+
+
+def projection_pairs(rng, A):
+    """pairs that differ as arrays but agree in sorted values / multiset / sum / first and last rows / lengths"""
+    nn, nf = len(A["lon"]), len(A["conn"])
+    w = len(A["conn"][0])
+
+    def cp(d, **kw):
+        e = json.loads(json.dumps(d))
+        e.update(kw)
+        return e
+
+    out = []
+    rows = [list(r) for r in A["conn"]]
+    if nf > 1:
+        perm = rows[1:] + rows[:1] if rng.random() < 0.5 else rng.sample(rows, nf)
+        if perm != rows:
+            out.append(("proj/rows-permuted", A, cp(A, conn=perm)))
+        out.append(("proj/rows-reversed", A, cp(A, conn=rows[::-1])))
+    tr = [[rows[i][j] for i in range(nf)] for j in range(w)]
+    if tr != rows:
+        out.append(("proj/transposed", A, cp(A, conn=tr)))
+    flat = [v for r in rows for v in r]
+    sh = list(flat)
+    rng.shuffle(sh)
+    if sh != flat:
+        out.append(("proj/same-multiset-conn", A, cp(A, conn=[sh[i * w:(i + 1) * w] for i in range(nf)])))
+    # same sum of entries: one index up, one down
+    real = [(f, j) for f in range(nf) for j in range(w) if rows[f][j] != INT_FILL]
+    cand = [(p, q) for p in real for q in real if p != q and rows[p[0]][p[1]] + 1 < nn and rows[q[0]][q[1]] - 1 >= 0]
+    if cand:
+        (f1, j1), (f2, j2) = rng.choice(cand)
+        c2 = [list(r) for r in rows]
+        c2[f1][j1] += 1
+        c2[f2][j2] -= 1
+        if c2 != rows:
+            out.append(("proj/same-sum-conn", A, cp(A, conn=c2)))
+    if nf >= 3:  # first and last rows untouched
+        f = rng.randrange(1, nf - 1)
+        j = rng.randrange(w)
+        c2 = [list(r) for r in rows]
+        c2[f][j] = rng.choice([v for v in range(nn) if v != c2[f][j]])
+        out.append(("proj/middle-row-conn", A, cp(A, conn=c2)))
+    for name in ("lon", "lat"):
+        v = list(A[name])
+        if v[::-1] != v:
+            out.append((f"proj/{name}-reversed", A, cp(A, **{name: v[::-1]})))
+        if nn >= 3:  # first and last entries untouched
+            i = rng.randrange(1, nn - 1)
+            u = list(v); u[i] = change_val(rng, u[i], "half")
+            out.append((f"proj/{name}-middle-entry", A, cp(A, **{name: u})))
+        if nn >= 2:  # same sum (up to rounding): one value up, one down
+            i, k = rng.sample(range(nn), 2)
+            u = list(v)
+            if fl(u[i]) == fl(u[i]) and fl(u[k]) == fl(u[k]):
+                u[i] = bits(fl(u[i]) + 0.25); u[k] = bits(fl(u[k]) - 0.25)
+                out.append((f"proj/{name}-same-sum", A, cp(A, **{name: u})))
+        # lengths only: every value different
+        u = [bits(fl(x) * 0.5 + 0.125) if fl(x) == fl(x) else bits(1.0) for x in v]
+        out.append((f"proj/{name}-all-entries-differ", A, cp(A, **{name: u})))
+    return out
+
+
+# --------------------------------------------------------------------------------------
 # backing states: numpy / chunk()ed / copied / sub-selected / lazily opened
 # --------------------------------------------------------------------------------------
 
@@ -640,6 +780,8 @@ def backing_pairs(rng, A, thorough):
         old = conn[f][j]
         conn[f][j] = rng.choice([v for v in range(nn) if v != old]) if (old == INT_FILL or rng.random() < 0.7) else INT_FILL
         near.append(("one-conn", cp(A, conn=conn)))
+    for kind, _, B in reshape_pairs(rng, A, 1):
+        near.append((kind, B))
     out = []
     for kind, B in near:
         sel = [["isel", sorted(rng.sample(range(nf), rng.randint(1, nf)))]] if (nf > 1 and rng.random() < 0.2) else []
@@ -799,7 +941,9 @@ def run(ctx):
                 "connectivity entry changed (ulp, NaN, fill value …), n_node / n_face / width changed, other format, NaN and ±0 "
                 "placements, float32 storage, coordinates stored as data variables / xarray coordinates, after derived attributes "
                 "were computed; all ordered pairs of a small family (every combination of differing fields); g==g, copies, "
-                "non-Grid operands; every kind of pair again with the grids put into other BACKING STATES by public calls "
+                "non-Grid operands; pairs that agree under a PROJECTION of the arrays (same flattened connectivity in another "
+                "(n_face, width) shape incl. trailing fills, permuted / reversed rows, transposed table, same multiset, same sum, "
+                "only a middle row / middle entry changed, reversed coordinates, same lengths only); every kind of pair again with the grids put into other BACKING STATES by public calls "
                 "(Grid.chunk with random n_node/n_edge/n_face: same calls on both sides, different arguments, one side only; "
                 "copy(); isel; derived tables materialised; files opened lazily with chunks={}), the oracle being the value-level "
                 "Spec, and Lean evaluating `namesFaithful` on the observed dask names.  distinct = distinct (arrays, formats, kind); non-trivial = the pair differs in at most one field")
@@ -820,7 +964,8 @@ def run(ctx):
         run_input(ctx, ux, c["input"])
     # 1. bit-level tie
     ieee_tie(ctx)
-    # 2. exhaustive small scope
+    # 2. exhaustive small scope; same flattening / other shape families
+    reshape_scope(ctx, ux)
     small_scope(ctx, ux)
     # 3. generated meshes × named changes
     ms = []
@@ -829,7 +974,7 @@ def run(ctx):
     thorough = ctx.thorough or ctx.escalate
     for mi, m in enumerate(ms):
         A = base_from_mesh(rng, m)
-        for kind, da, db in variants(rng, A, thorough):
+        for kind, da, db in variants(rng, A, thorough) + reshape_pairs(rng, A, 3 if thorough else 2) + projection_pairs(rng, A):
             touches = tuple(rng.sample(TOUCHES, 2)) if rng.random() < 0.25 else ()
             r = run_pair(ctx, ux, kind, da, db, touches)
             if r and kind == "identical":
